@@ -145,20 +145,24 @@ def encodeBlock (cd : Codec σ α) (w : W σ α) : W σ α :=
   let r := cd.enc w.e w.staged
   { w with e := r.1, staged := [], sizes := w.sizes ++ [r.2.length], tmp := w.tmp ++ r.2 }
 
-/-- the `while (len > 0)` loop of `alac_write_*` (after the conversion to codec ints), counted in frames:
-    `writecount = (frames_per_block - partial) ; writecount = (writecount == 0 || writecount > len) ? len : writecount` -/
+/-- `writecount = (frames_per_block - partial) ; writecount = (writecount == 0 || writecount > len) ? len : writecount`, in frames -/
+def wcOf (staged len : Nat) : Nat :=
+  if fpb - staged = 0 ∨ fpb - staged > len then len else fpb - staged
+
+/-- one iteration of the `while (len > 0)` loop of `alac_write_*` (after the conversion to codec ints): copy `writecount`
+    frames behind the staged ones, encode when the packet is full -/
+def writeStep (cd : Codec σ α) (w : W σ α) (xs : List α) : W σ α :=
+  let w1 := { w with staged := w.staged ++ xs.take (wcOf w.staged.length xs.length) }
+  if w1.staged.length ≥ fpb then encodeBlock cd w1 else w1
+
+/-- the `while (len > 0)` loop of `alac_write_*`, counted in frames -/
 def writeLoop (cd : Codec σ α) (w : W σ α) (xs : List α) : W σ α :=
-  if h : xs = [] then w
-  else
-    let space := fpb - w.staged.length
-    let wc := if space = 0 ∨ space > xs.length then xs.length else space
-    let w1 := { w with staged := w.staged ++ xs.take wc }
-    let w2 := if w1.staged.length ≥ fpb then encodeBlock cd w1 else w1
-    writeLoop cd w2 (xs.drop wc)
+  if _h : xs = [] then w
+  else writeLoop cd (writeStep cd w xs) (xs.drop (wcOf w.staged.length xs.length))
 termination_by xs.length
 decreasing_by
-  have : xs.length > 0 := List.length_pos_iff.mpr h
-  simp only [List.length_drop]
+  have : xs.length > 0 := List.length_pos_iff.mpr _h
+  simp only [List.length_drop, wcOf]
   split <;> omega
 
 /-- one `sf_write_*` call of whole frames: the codec loop, then the wrapper's `sf.frames` bookkeeping -/
